@@ -100,6 +100,13 @@ CHECKS = {
   text="Dialogues for 7 capability sets x string arguments from 16 classes in every command that takes strings x APPEND sizes around 4096 x SEARCH with non-ASCII text x four server reactions to synchronising literals ('+' at once, '+' after unrelated untagged data once the client is parked, tagged NO, tagged BAD), ending with a usability probe.",
   design_ref="DESIGN.md §3 C18",
   note="Capability sets are constant within a dialogue; UTF8=ACCEPT counts from the command after the ENABLED response."),
+
+ "C13": dict(
+  category="exploration",
+  technique="Go race detector + exactly-once completion accounting + tag-uniqueness on the tee, under stress workloads with schedule perturbation: seeded yields injected at every lock/unlock site of package imapclient by source-level instrumentation generated from the current tree (cmd/lockgen, go build -overlay), GOMAXPROCS varied, connection resets and concurrent Close at seed-chosen points",
+  text="Runs of 2/4/8 goroutines x 6..15 random commands of every kind against a scripted server that answers out of order and delays continuation requests, in four regimes (healthy, connection reset at a random byte, concurrent Close, both), with and without capability data in greeting / LOGIN, each workload under 3 yield seeds. Decides on the executions produced: zero deduplicated race reports with imapclient/imapwire frames, unique tags, every submitted command completes exactly once, Close returns.",
+  design_ref="DESIGN.md §3 C13",
+  note="Sees only the interleavings produced; evidence counts distinct lock-acquisition fingerprints. Yields only at genuine suspension points."),
 }
 
 NOT_YET = "check not built yet in this round (planned in DESIGN.md §3; runtime monitoring applies)"
